@@ -1,5 +1,5 @@
 """Property -> rule composition.  Each function decides the statically decidable clauses of one property."""
-from .rules import kdefects, numeric, seed, typestate, ownership, clifford, circuit, stabilizer, adjoint, manifold, gellmann, twins, backend, masks, axes
+from .rules import kdefects, numeric, seed, typestate, ownership, clifford, circuit, stabilizer, adjoint, manifold, gellmann, twins, backend, masks, axes, pauli
 
 M = 'numqi.'
 DECISION_C05 = ['numqi.entangle.ppt.is_ppt', 'numqi.entangle.ppt.is_generalized_ppt',
@@ -103,6 +103,20 @@ def c02(proj, rep, tier):
                'placed in a field the projection keeps, theta reaches the map) are decided')
     rep.assume('Stiefel so-exp/so-cayley at rank==dim parametrise SO(d)/SU(d) (as the option name says), so the bound used '
                'there is min(dim St(d,r), dim SO/SU(d))')
+
+
+def c08(proj, rep, tier):
+    n = pauli.e1(proj, rep)
+    rep.floor('E1 literal table obligations', n, 22)
+    n = pauli.e2(proj, rep)
+    rep.floor('E2 phase-folding obligations', n, 6)
+    ncache, nsites = ownership.o1(proj, rep, focus={'numqi.gate._pauli.get_pauli_group'})
+    nfun, tot = seed.run(proj, rep, ['numqi.random._spf2'])
+    rep.floor('seed functions in random._spf2 (rand_pauli)', nfun, 4)
+    n = twins.tw(proj, rep, ['numqi.gate._pauli'])
+    rep.assume('the group law on F2 vectors (phase carries of product / inverse), byte order of unpackbits and Hermiticity of '
+               'rand_pauli are value-level on a finite domain - the right tool is the exhaustive enumeration the property itself '
+               'proposes, which is not this family: not decided')
 
 
 def c12(proj, rep, tier):
@@ -238,7 +252,7 @@ def c20(proj, rep, tier):
 
 
 def dev(proj, rep, tier):
-    print(axes.kraus_tp(proj, rep))
+    print(pauli.e1(proj, rep))
 
 
-PROPS = {'C01': c01, 'C02': c02, 'C12': c12, 'C15': c15, 'C16': c16, 'C03': c03, 'C04': c04, 'C05': c05, 'C07': c07, 'C19': c19, 'C10': c10, 'C11': c11, 'C18': c18, 'C20': c20, 'DEV': dev}
+PROPS = {'C01': c01, 'C02': c02, 'C08': c08, 'C12': c12, 'C15': c15, 'C16': c16, 'C03': c03, 'C04': c04, 'C05': c05, 'C07': c07, 'C19': c19, 'C10': c10, 'C11': c11, 'C18': c18, 'C20': c20, 'DEV': dev}
